@@ -74,6 +74,45 @@ macro_rules! harness {
             let _ = $body(&inp);
         }
     };
+    ($name:ident, unwind = $u:expr, stubs = indicator, $body:path) => {
+        #[cfg(kani)]
+        #[kani::proof]
+        #[kani::unwind($u)]
+        #[kani::stub(std::vec::Vec::reserve, $crate::stubs::vec_reserve)]
+        #[kani::stub(std::vec::Vec::push, $crate::stubs::vec_push)]
+        #[kani::stub(std::vec::Vec::with_capacity, $crate::stubs::vec_with_capacity)]
+        #[kani::stub(arimaa_engine_step::zobrist::piece_value, $crate::stubs::piece_value_indicator)]
+        pub fn $name() {
+            let inp: $crate::scenario::Inp = kani::any();
+            let _ = $body(&inp);
+        }
+    };
+    ($name:ident, unwind = $u:expr, stubs = absmove, $body:path) => {
+        #[cfg(kani)]
+        #[kani::proof]
+        #[kani::unwind($u)]
+        #[kani::stub(std::vec::Vec::reserve, $crate::stubs::vec_reserve)]
+        #[kani::stub(std::vec::Vec::push, $crate::stubs::vec_push)]
+        #[kani::stub(std::vec::Vec::with_capacity, $crate::stubs::vec_with_capacity)]
+        #[kani::stub(arimaa_engine_step::zobrist::Zobrist::move_piece, $crate::stubs::zobrist_move_piece_abstract)]
+        pub fn $name() {
+            let inp: $crate::scenario::Inp = kani::any();
+            let _ = $body(&inp);
+        }
+    };
+    ($name:ident, unwind = $u:expr, stubs = nobt, $body:path) => {
+        #[cfg(kani)]
+        #[kani::proof]
+        #[kani::unwind($u)]
+        #[kani::stub(std::vec::Vec::reserve, $crate::stubs::vec_reserve)]
+        #[kani::stub(std::vec::Vec::push, $crate::stubs::vec_push)]
+        #[kani::stub(std::vec::Vec::with_capacity, $crate::stubs::vec_with_capacity)]
+        #[kani::stub(anyhow::private::format_err, $crate::stubs::anyhow_format_err_cut)]
+        pub fn $name() {
+            let inp: $crate::scenario::Inp = kani::any();
+            let _ = $body(&inp);
+        }
+    };
     ($name:ident, unwind = $u:expr, stubs = lowest, $body:path) => {
         #[cfg(kani)]
         #[kani::proof]
@@ -120,5 +159,14 @@ macro_rules! set_focus {
 macro_rules! each {
     ([$($v:expr),*], $k:ident, $b:block) => {
         $( { let $k = $v; $b } )*
+    };
+}
+
+/// Cover witness that applies only when a compile-time condition holds (other instances of a
+/// generic body satisfy it trivially instead of reporting an unreachable witness).
+#[macro_export]
+macro_rules! vcover_if {
+    ($k:expr, $c:expr, $m:literal) => {
+        vcover!(!($k) || ($c), $m)
     };
 }
